@@ -68,10 +68,11 @@ def main():
         + mutants_table() + "\n\n" \
         "**Seeded changes written by independent sub-agents** (`seeded/<ID>-<n>/`: `patch.diff`, the author's demonstration, `meta.json`). Each agent got only the text of one " \
         "property and a private worktree; nothing from `/verif`. Every change was confirmed first (`tools/verify_seed.sh`: applies to HEAD, builds, passes the 41 tests, its " \
-        "demonstration fails with it and passes without it) and then run against the checks (`tools/seed_import.py`). `R2-` … `R6-` entries are later rounds in which the agents were " \
+        "demonstration fails with it and passes without it) and then run against the checks (`tools/seed_import.py`). `R2-` … `R7-` entries are later rounds in which the agents were " \
         "shown the summaries of all earlier rounds for their property and asked for different, harder defects; from the fourth round on they were also told to stay inside D and make the " \
-        "*trigger* rare (values, call sequences, option interactions, ordering) rather than the descriptor exotic. 237 changes in all; the two not caught (`R3-C11-1`, `R6-C20-2`) only alter " \
-        "output for inputs outside D (nested declarations, the `schema_types` option). Where a change was first missed, the column shows the state after the generator or oracle was extended (12.2 lists those extensions).\n\n" \
+        "*trigger* rare (values, call sequences, option interactions, ordering) rather than the descriptor exotic. 257 changes in all. Not caught: `R3-C11-1` and `R6-C20-2`, which only alter output for inputs outside D (nested " \
+        "declarations, the `schema_types` option), and `R7-C13-2` (a generated file that imports nothing at all: a known gap, see the table). The seventh round (20 changes, ten properties) " \
+        "was imported as a measurement first: 16 of 20 were caught by the checks as they stood; three of the four misses were then closed by small generator additions, the fourth is the gap. Where a change was first missed, the column shows the state after the generator or oracle was extended (12.2 lists those extensions).\n\n" \
         + seeded_table() + "\n\n" + tail.replace("{BUDGETS}", budgets_table()).replace("{FINAL}", open(os.path.join(ROOT, "tools", "design12_final.md")).read().strip())
     p = os.path.join(ROOT, "DESIGN.md")
     s = open(p).read()
